@@ -1,0 +1,127 @@
+//go:build verif
+
+package remote
+
+import (
+	"fmt"
+
+	"github.com/bazelbuild/remote-apis-sdks/go/pkg/uploadinfo"
+	pb "github.com/bazelbuild/remote-apis/build/bazel/remote/execution/v2"
+	"google.golang.org/protobuf/proto"
+
+	"github.com/thought-machine/please/src/core"
+)
+
+// VerifDirBuilder exposes dirBuilder to the verification harness (property C28).
+// Entries are inserted the way uploadInputDir does it: d := b.Dir(dir); d.X = append(d.X, node).
+type VerifDirBuilder struct{ b *dirBuilder }
+
+// VerifNode is one entry of a directory message in plain Go types.
+type VerifNode struct {
+	Name   string
+	Digest string // "hash/size", "" when nil
+	Exec   bool
+	Target string
+}
+
+// VerifDir is one pb.Directory in plain Go types.
+type VerifDir struct {
+	Digest   string // digest of the message itself, "hash/size"
+	Files    []VerifNode
+	Dirs     []VerifNode
+	Symlinks []VerifNode
+}
+
+// NewVerifDirBuilder returns an empty builder.
+func NewVerifDirBuilder() *VerifDirBuilder { return &VerifDirBuilder{b: newDirBuilder(nil)} }
+
+// EnsureDir is dirBuilder.Dir.
+func (v *VerifDirBuilder) EnsureDir(name string) { v.b.Dir(name) }
+
+// AddFile adds a file node to the directory dir.
+func (v *VerifDirBuilder) AddFile(dir, name, hash string, size int64, exec bool) {
+	d := v.b.Dir(dir)
+	d.Files = append(d.Files, &pb.FileNode{Name: name, Digest: &pb.Digest{Hash: hash, SizeBytes: size}, IsExecutable: exec})
+}
+
+// AddDirNode adds a directory node with a known digest (hash == "" means a nil digest) to the directory dir.
+func (v *VerifDirBuilder) AddDirNode(dir, name, hash string, size int64) {
+	d := v.b.Dir(dir)
+	n := &pb.DirectoryNode{Name: name}
+	if hash != "" {
+		n.Digest = &pb.Digest{Hash: hash, SizeBytes: size}
+	}
+	d.Directories = append(d.Directories, n)
+}
+
+// AddSymlink adds a symlink node to the directory dir.
+func (v *VerifDirBuilder) AddSymlink(dir, name, target string) {
+	d := v.b.Dir(dir)
+	d.Symlinks = append(d.Symlinks, &pb.SymlinkNode{Name: name, Target: target})
+}
+
+func verifDigest(d *pb.Digest) string {
+	if d == nil {
+		return ""
+	}
+	return fmt.Sprintf("%s/%d", d.Hash, d.SizeBytes)
+}
+
+func verifDir(dg string, d *pb.Directory) VerifDir {
+	out := VerifDir{Digest: dg}
+	for _, f := range d.Files {
+		out.Files = append(out.Files, VerifNode{Name: f.Name, Digest: verifDigest(f.Digest), Exec: f.IsExecutable})
+	}
+	for _, n := range d.Directories {
+		out.Dirs = append(out.Dirs, VerifNode{Name: n.Name, Digest: verifDigest(n.Digest)})
+	}
+	for _, s := range d.Symlinks {
+		out.Symlinks = append(out.Symlinks, VerifNode{Name: s.Name, Target: s.Target})
+	}
+	return out
+}
+
+// Build runs dirBuilder.Build with an upload channel. It returns the root message and every directory
+// message that was sent to the channel, decoded from the uploaded blobs, in the order they were sent.
+func (v *VerifDirBuilder) Build() (root VerifDir, emitted []VerifDir, err error) {
+	ch := make(chan *uploadinfo.Entry, 16)
+	done := make(chan struct{})
+	go func() {
+		defer close(done)
+		for e := range ch {
+			d := &pb.Directory{}
+			if uerr := proto.Unmarshal(e.Contents, d); uerr != nil && err == nil {
+				err = uerr
+			}
+			emitted = append(emitted, verifDir(verifDigest(e.Digest.ToProto()), d))
+		}
+	}()
+	r := v.b.Build(ch)
+	close(ch)
+	<-done
+	entry, _ := uploadinfo.EntryFromProto(r)
+	return verifDir(verifDigest(entry.Digest.ToProto()), r), emitted, err
+}
+
+// VerifBuildEnv is Client.buildEnv for a client whose please location and user home are given.
+func VerifBuildEnv(env map[string]string, sandbox, binary bool, pleaseLocation, userHome string) [][2]string {
+	config := core.DefaultConfiguration()
+	config.Please.Location = pleaseLocation
+	c := &Client{state: &core.BuildState{Config: config}, userHome: userHome}
+	vars := c.buildEnv(&core.BuildTarget{IsBinary: binary}, core.BuildEnv(env), sandbox)
+	out := make([][2]string, len(vars))
+	for i, v := range vars {
+		out[i] = [2]string{v.Name, v.Value}
+	}
+	return out
+}
+
+// VerifActionDigest is the digest composition of buildAction: command digest, input root digest, timeout, platform.
+func VerifActionDigest(commandHash string, commandSize int64, rootHash string, rootSize int64, platform []string) string {
+	c := &Client{}
+	return verifDigest(c.digestMessage(&pb.Action{
+		CommandDigest:   &pb.Digest{Hash: commandHash, SizeBytes: commandSize},
+		InputRootDigest: &pb.Digest{Hash: rootHash, SizeBytes: rootSize},
+		Platform:        convertPlatform(platform),
+	}))
+}
